@@ -435,20 +435,89 @@ def runRowsT (cls : Kwargs κ → Prog) (maxSteps : Nat) (period : Int) (r : Run
   | .ok rows => rows
   | .error _ => []
 
-theorem holds_runModel (p : Prog) (maxSteps : Nat) :
+theorem holds_runModel (p : Prog) (hT : Total p.cfg) (maxSteps : Nat) :
     ∃ k ≤ maxSteps, runModel p maxSteps = run p.cfg (Collect.init p.cfg p.tables) (histOf p k) ∧
       Holds p.cfg (storedSnaps p.cfg (Collect.init p.cfg p.tables) (histOf p k)) (runModel p maxSteps) := by
   obtain ⟨k, hk, he⟩ := runModel_eq_run p maxSteps
   refine ⟨k, hk, he, ?_⟩
-  have := holds_run (holds_init p.cfg p.tables) (histOf p k)
-  simp only [List.nil_append] at this
+  rw [he]; exact holds_history hT p.tables (histOf p k)
+
+/-! ### `batch_run` never fails for a period ≠ 0, whatever the reporters do
+
+A reporter that raises inside a collect the model swallows leaves `model_vars` ragged, but every column stays at
+least as long as `_collection_steps`: `_collect_data` finds a value at every reported position. -/
+
+theorem mOk_eq_all (cfg : Cfg) (sn : Snap) : mOk cfg sn = cfg.mreps.all (·.passes sn) := by
+  rw [Bool.eq_iff_iff, mOk_iff, List.all_eq_true]
+
+theorem colsOf_length_ge (l : List MRep) (snaps : List Snap) :
+    ∀ col ∈ colsOf l snaps, (snaps.filter fun sn => l.all (·.passes sn)).length ≤ col.length := by
+  induction l generalizing snaps with
+  | nil => simp [colsOf]
+  | cons r rs ih =>
+    intro col hc
+    have hff : (snaps.filter fun sn => (r :: rs).all (·.passes sn)) =
+        (snaps.filter r.passes).filter fun sn => rs.all (·.passes sn) := by
+      rw [List.filter_filter]
+      apply List.filter_congr
+      intro sn _
+      simp [Bool.and_comm]
+    simp only [colsOf, List.mem_cons] at hc
+    rcases hc with rfl | hc
+    · rw [hff, List.length_map]; exact List.length_filter_le _ _
+    · rw [hff]; exact ih _ col hc
+
+theorem colsLong_of_holdsG {cfg : Cfg} {snaps : List Snap} {s : State} (h : HoldsG cfg snaps s) :
+    ∀ col ∈ s.modelVars, s.collSteps.length ≤ col.length := by
+  intro col hc
+  rw [h.modelVars] at hc
+  have := colsOf_length_ge cfg.mreps snaps col hc
+  rw [h.collSteps, List.length_map]
+  have he : snaps.filter (mOk cfg) = snaps.filter fun sn => cfg.mreps.all (·.passes sn) :=
+    List.filter_congr (fun sn _ => mOk_eq_all cfg sn)
   rw [he]; exact this
+
+theorem mapM_getElem?_isSome (cols : List (List Val)) (i : Nat) (h : ∀ col ∈ cols, i < col.length) :
+    ∃ vs, cols.mapM (·[i]?) = some vs := by
+  induction cols with
+  | nil => exact ⟨[], rfl⟩
+  | cons c cs ih =>
+    obtain ⟨vs, hvs⟩ := ih (fun col hc => h col (by simp [hc]))
+    have hlt : i < c.length := h c (by simp)
+    have hc : c[i]? = some c[i] := List.getElem?_eq_getElem hlt
+    exact ⟨c[i] :: vs, by simp [List.mapM_cons, hc, hvs]⟩
+
+theorem mapME_isOk (f : α → Except Err β) (l : List α) (h : ∀ x ∈ l, ∃ y, f x = .ok y) :
+    ∃ ys, mapME f l = .ok ys := by
+  induction l with
+  | nil => exact ⟨[], rfl⟩
+  | cons x xs ih =>
+    obtain ⟨y, hy⟩ := h x (by simp)
+    obtain ⟨ys, hys⟩ := ih (fun z hz => h z (by simp [hz]))
+    exact ⟨y :: ys, by simp only [mapME, hy, hys]⟩
 
 theorem runRows_total (cls : Kwargs κ → Prog) (maxSteps : Nat) (per : Int) (hp : per ≠ 0) (r : Run κ) :
     runRows cls maxSteps per r = .ok (runRowsT cls maxSteps per r) := by
-  obtain ⟨k, _, _, h⟩ := holds_runModel (cls r.kwargs) maxSteps
-  obtain ⟨ps, _, he⟩ := runRows_of_holds cls maxSteps per hp r _ h
-  simp only [runRowsT, he]
+  obtain ⟨k, _, he⟩ := runModel_eq_run (cls r.kwargs) maxSteps
+  have hG := holdsG_history (cls r.kwargs).cfg (cls r.kwargs).tables (histOf (cls r.kwargs) k)
+  rw [← he] at hG
+  have hlong := colsLong_of_holdsG hG
+  obtain ⟨ps, hps, hmem, _⟩ := picks_spec (runModel (cls r.kwargs) maxSteps).collSteps.length per hp
+  have hrows : ∀ i ∈ ps, ∃ rows, rowsAt r (runModel (cls r.kwargs) maxSteps) i = .ok rows := by
+    intro i hi
+    have hlt := ((hmem i).mp hi).1
+    obtain ⟨vs, hvs⟩ := mapM_getElem?_isSome (runModel (cls r.kwargs) maxSteps).modelVars i
+      (fun col hc => Nat.lt_of_lt_of_le hlt (hlong col hc))
+    have hst : (runModel (cls r.kwargs) maxSteps).collSteps[i]? =
+        some (runModel (cls r.kwargs) maxSteps).collSteps[i] := List.getElem?_eq_getElem hlt
+    unfold rowsAt collectData
+    simp only [hst, hvs]
+    exact ⟨_, rfl⟩
+  obtain ⟨ys, hys⟩ := mapME_isOk _ ps hrows
+  have : runRows cls maxSteps per r = .ok ys.flatten := by
+    unfold runRows
+    simp only [hps, hys]
+  simp only [runRowsT, this]
 
 theorem batchOrder_total (cls : Kwargs κ → Prog) (maxSteps : Nat) (per : Int) (hp : per ≠ 0) (order : List (Run κ)) :
     batchOrder cls maxSteps per order = .ok (order.flatMap (runRowsT cls maxSteps per)) := by
